@@ -30,12 +30,12 @@ PROPS = {
     },
     'C04': {
         'technique': 'Lean 4 theorems over the GREASE arithmetic (all seeds via low-byte reduction + kernel decide over the byte table; QUIC ids/versions by omega) + exhaustive/differential correspondence with GetBoringGREASEValue, ApplyPreset and the QUIC generators',
-        'level_text': 'Kernel-checked for every uint16 seed word and every drawn value: GetBoringGREASEValue is always 0x?A?A and depends exactly on one nibble of this connection\'s seed (functional freshness); after de-duplication the two GREASE extensions always differ; the GREASE group substituted into key_share equals the one in supported_groups; 31N+27 ids below 2^62; versions 0x?a?a?a?a. Tie: exhaustive 65536 seeds (thorough), all parrots x random Config.Rand streams, QUIC generators under a logged crypto/rand.Reader with a Lean replica of rand.Int.',
+        'level_text': 'Kernel-checked for every uint16 seed word and every drawn value: GetBoringGREASEValue is always 0x?A?A and depends exactly on one nibble of this connection\'s seed (functional freshness); after de-duplication the two GREASE extensions always differ; the GREASE group substituted into key_share equals the one in supported_groups, also for every sequence of re-applications of one in-place rewritten spec object (each hello is a function of its own seed and the original spec: resubst_consistent, reapply_function_of_own_seed) and for literal GREASE values in a spec; 31N+27 ids below 2^62; versions 0x?a?a?a?a. Tie: exhaustive 65536 seeds (thorough), all parrots x random Config.Rand streams, sequences of 2-3 applications of one spec object (two-step build, shared spec, literal GREASE), QUIC generators under a logged crypto/rand.Reader with a Lean replica of rand.Int.',
         'level_note': 'variation across connections is a statement about the entropy source and is only measured; theorem = functional dependence on the connection\'s 10 GREASE bytes. crypto/rand.Int replicated in the model and validated by correspondence.',
-        'families': {'grease_val': (3000, 65536), 'grease_hello': (760, 38000), 'grease_quic': (600, 60000)},
-        'rule': 'grease_val: seed words (thorough: all 65536) x 5 indices; grease_hello: every parrot id x fresh deterministic Config.Rand, values read back from the built handshake state; grease_quic: GetGREASEID/GetGREASEVersion/ID()/VersionInformation.Value under logged crypto/rand. non-trivial = spec containing GREASE placeholders, or a QUIC draw',
-        'trivial_tag': r'^(nospec|gext=0,)$',
-        'required_tags': [r'grease_hello:gext=2', r'grease_hello:.*dedup', r'grease_quic:over=valid', r'grease_quic:.*retry=y', r'grease_val:nibble=0'],
+        'families': {'grease_val': (3000, 65536), 'grease_hello': (760, 38000), 'grease_reapply': (800, 40000), 'grease_quic': (600, 60000)},
+        'rule': 'grease_val: seed words (thorough: all 65536) x 5 indices; grease_hello: every parrot id x fresh deterministic Config.Rand, values read back from the built handshake state; grease_reapply: one spec OBJECT applied 2-3 times (ApplyPreset rewrites it in place): (k-1) x BuildHandshakeStateWithoutSession + BuildHandshakeState on one connection, or one ClientHelloSpec shared by 2-3 HelloCustom connections with independent Config.Rand, optionally with literal non-placeholder GREASE values written into the spec; per step the per-hello clauses on state and parsed wire hello + no value kept from the previous application when the seeds differ; grease_quic: GetGREASEID/GetGREASEVersion/ID()/VersionInformation.Value under logged crypto/rand. non-trivial = spec containing GREASE placeholders, or a QUIC draw',
+        'trivial_tag': r'^(nospec|gext=0,|(two|shared),n=\d,gext=0,,groupseeds=\w+)$',
+        'required_tags': [r'grease_hello:gext=2', r'grease_hello:.*dedup', r'grease_reapply:two,n=2,gext=2,cgkv,groupseeds=differ', r'grease_reapply:two,n=3,gext=2,cgkv,groupseeds=differ', r'grease_reapply:shared,n=[23],gext=2,cgkv,groupseeds=differ', r'grease_reapply:shared,n=[23],gext=2,cgkv,lit,groupseeds=differ', r'grease_reapply:.*,cg,', r'grease_quic:over=valid', r'grease_quic:.*retry=y', r'grease_val:nibble=0'],
         'assumptions': ['the 10-byte read from Config.Rand is the GREASE seed read (exactly one read of that length is observed and checked)', 'crypto/rand.Reader can be replaced for the duration of a case'],
         'trusted': ['modelled: GetBoringGREASEValue, the de-duplication and substitutions of ApplyPreset, GetGREASEID, GetGREASEVersion, IsGREASEID; math/big rand.Int replicated'],
     },
